@@ -31,19 +31,19 @@ type Result struct {
 }
 
 type Run struct {
-	SpecDir string            // directory holding the .tla files (copied to Scratch)
-	Scratch string            // scratch dir for this run (created, caller removes)
-	Module  string            // module name without .tla
-	Cfg     string            // full text of the .cfg
-	Files   map[string]string // extra files to place next to the module (name -> source path)
-	Workers int
-	Timeout time.Duration
-	Simulate string // e.g. "num=1000" to run -simulate; "" for exhaustive
-	Depth    int
-	Seed     int
+	SpecDir   string            // directory holding the .tla files (copied to Scratch)
+	Scratch   string            // scratch dir for this run (created, caller removes)
+	Module    string            // module name without .tla
+	Cfg       string            // full text of the .cfg
+	Files     map[string]string // extra files to place next to the module (name -> source path)
+	Workers   int
+	Timeout   time.Duration
+	Simulate  string // e.g. "num=1000" to run -simulate; "" for exhaustive
+	Depth     int
+	Seed      int
 	ExtraArgs []string
 	JavaProps []string // e.g. -Dtlc2.tool.queue.IStateQueue=StateDeque
-	OnLine  func(tag string, json string)
+	OnLine    func(tag string, json string)
 }
 
 var statsRe = regexp.MustCompile(`^(\d+) states generated, (\d+) distinct states found`)
